@@ -26,6 +26,7 @@ EXPLANATION += ' R03.13 the boundary table (default request and explicit request
 
 TECHNIQUE += '; the boundary table of the driver (default and explicit requests) by prefix interpretation in both unit systems'
 
+EXPLANATION += ' R03.11 also: a typed integer variable used as an offset inside a subscript is at least as wide as the integers it is computed from (a narrower one addresses another element once the value exceeds its range).'
 def run(chk):
     repo = Repo(chk.repo)
     d = X.Decider(seed=chk.seed, k=2 if chk.tier == 'quick' else 6)
